@@ -120,7 +120,8 @@ pub fn accepted(rng: &mut Rng, o: &Opts) -> (B, Vec<u8>) {
   let mut info: Vec<(Vec<u8>, B)> = Vec::new();
   let name = rand_text(rng, o.odd_strings);
   info.push((b"name".to_vec(), B::s(&name)));
-  let p: i128 = *rng.pick(&[1i128, 16384, 32768, 1 << 20, 12345, (1i128 << 32) - 1, 1 << 40]);
+  // (the last three do not fit a signed 64-bit integer, or only just: whichever reader takes them must hash the span as stored)
+  let p: i128 = *rng.pick(&[1i128, 16384, 32768, 1 << 20, 12345, (1i128 << 32) - 1, 1 << 40, 16384, 32768, (1i128 << 63) - 1, 1 << 63, (1i128 << 64) - 1]);
   info.push((b"piece length".to_vec(), B::Int(p)));
   // mostly a few pieces; now and then enough of them that the file outgrows any I/O buffer, rarely a megabyte of them
   let npieces = match rng.below(60) {
@@ -197,7 +198,9 @@ pub fn accepted(rng: &mut Rng, o: &Opts) -> (B, Vec<u8>) {
   }
   let mut top: Vec<(Vec<u8>, B)> = vec![(b"info".to_vec(), B::sorted(info))];
   if rng.chance(1, 2) {
-    top.push((b"announce".to_vec(), B::s(&rand_url(rng))));
+    // (now and then a tracker text with white space around it, or nothing at all: it is shown as it is stored)
+    let a = if rng.chance(1, 7) { rng.pick(&[" http://t.example/a\n", "", "  ", "\thttp://x.example/ ", "http://t.example/a "]).to_string() } else { rand_url(rng) };
+    top.push((b"announce".to_vec(), B::s(&a)));
   }
   if rng.chance(1, 3) {
     // mostly a few tiers; sometimes more than nine (labels `Tier 10`, `Tier 11` sort before `Tier 2` as text)
@@ -232,6 +235,11 @@ pub fn accepted(rng: &mut Rng, o: &Opts) -> (B, Vec<u8>) {
   if o.unknown_keys {
     for _ in 0..rng.below(3) {
       let k = if rng.chance(1, 3) { rng.pick(&["azureus_properties", "a", "hidden info", "info ", "infox", "libtorrent_resume", "INFO", "Info", "url-list", "publisher", "magnet-uri", "nodes ", "piece layers", "httpseeds", "rss", "website", "locale", "title", "signatures", "meta version", "creation date ", "Announce"]).as_bytes().to_vec() } else { unknown_key(rng, &TOP_KEYS) };
+      if k == b"magnet-uri" && !top.iter().any(|(kk, _)| *kk == k) {
+        // what some clients keep for torrents added by link: a well-formed link to some other torrent
+        top.push((k, B::s("magnet:?xt=urn:btih:0123456789abcdef0123456789abcdef01234567&dn=other&tr=http://elsewhere.example/announce")));
+        continue;
+      }
       if !top.iter().any(|(kk, _)| *kk == k) {
         let d = rng.below(o.max_depth as u64 + 1) as usize;
         let v = if rng.chance(1, 3) { decoy_value(rng) } else { rand_value(rng, d) };
